@@ -1408,7 +1408,7 @@ HTInew_dd_block(filerec_t *file_rec)
     list[0].blk    = block;
     HDmemfill(&list[1], &list[0], sizeof(dd_t), (uint32)ndds - 1);
 
-    if (file_rec->cache != 0) { /* if we are caching, wait to update previous DD block */
+    if (file_rec->cache == 0) { /* if we are caching, the whole DD block is written out by HTPsync() */
         uint8 *tbuf;            /* temporary buffer */
 
         tbuf = (uint8 *)malloc((size_t)(ndds * DD_SZ));
